@@ -125,7 +125,7 @@ func genC20(ctx *Ctx) {
 					continue
 				}
 				h := c20Host(ctx)
-				ops = append(ops, sx.L(sx.I(3), sx.N(i), sx.N(ctx.Rnd.Intn(6)), h.enc, sx.N(h.kind), sx.I(0)))
+				ops = append(ops, sx.L(sx.I(3), sx.N(i), sx.N(ctx.Rnd.Intn(6)+ctx.Rnd.Intn(2)*ctx.Rnd.Intn(7)), h.enc, sx.N(h.kind), sx.I(0)))
 				nt = nt || copied
 				ctx.Count("op:set-by-index")
 			case r < 14:
@@ -159,6 +159,31 @@ func genC20(ctx *Ctx) {
 			}
 		}
 		ctx.Input(ops, nt)
+	}
+	// growth chains: an array of length L is written past its end several times, with gaps (so that later writes land
+	// inside whatever spare capacity earlier growth left), then cloned, compared and written again
+	for L := 0; L <= 5; L++ {
+		for _, gaps := range [][]int{{0, 2}, {0, 1, 3}, {1, 1}, {0, 0, 2, 5}, {3}, {0, 6}} {
+			var ops sx.List
+			ops = append(ops, sx.L(sx.I(7), sx.N(0), sx.I(0)))
+			for x := 0; x < L; x++ {
+				h := c20Host(ctx)
+				ops = append(ops, sx.L(sx.I(6), sx.N(0), h.enc, sx.N(h.kind), sx.I(0)))
+			}
+			ops = append(ops, sx.L(sx.I(1), sx.N(0), sx.N(0), sx.N(ctx.Rnd.Intn(3))))
+			idx := L
+			for _, g := range gaps {
+				idx += g
+				h := c20Host(ctx)
+				ops = append(ops, sx.L(sx.I(3), sx.N(0), sx.N(idx), h.enc, sx.N(h.kind), sx.I(0)))
+				idx++
+			}
+			ops = append(ops, sx.L(sx.I(2), sx.N(1), sx.N(0), sx.N(0)))
+			h := c20Host(ctx)
+			ops = append(ops, sx.L(sx.I(3), sx.N(1), sx.N(idx+1), h.enc, sx.N(h.kind), sx.I(0)))
+			ctx.Count("growth-chain")
+			ctx.Input(ops, true)
+		}
 	}
 }
 
